@@ -713,7 +713,7 @@ func (g *gen) genHs() *hsScenario {
 	if g.r.Intn(5) < 2 {
 		sc.comp = compNames[g.r.Intn(len(compNames))]
 	}
-	sc.hasAuth = g.r.Intn(4) > 0
+	sc.hasAuth = g.r.Intn(4) > 0 // revisited below when the script asks for authentication
 	sc.cons = g.r.Intn(11)
 	sc.skipMeta = sc.v > 1 && g.r.Intn(4) > 0
 	sc.succOk = g.r.Intn(8) > 0
@@ -723,6 +723,7 @@ func (g *gen) genHs() *hsScenario {
 	if g.r.Intn(3) > 0 {
 		// authentication: class, `rounds` challenges, success
 		sc.answers = append(sc.answers, hsAnswer{kind: "authn", b: append([]byte("org.example."), g.ident()...)})
+		sc.hasAuth = g.r.Intn(8) > 0
 		rounds = g.r.Intn(5)
 		for i := 0; i < rounds; i++ {
 			sc.answers = append(sc.answers, hsAnswer{kind: "chal", b: g.optTok()})
